@@ -83,20 +83,20 @@ CHECKS = {
     "C08": {
         "level": EXPL,
         "technique": "runtime monitoring: recorded multiset of elementary interactions compared across groupings and with the model; bit-exact results with the polynomial kernel",
-        "claim": "For every explored input, all block sizes (1.., >= #leaves, automatic, TBFMM_BLOCK_SIZE) and both grouping modes produced the identical multiset of elementary interactions (equal to the model's), identical cell expansions and identical results.",
+        "claim": "For every explored input, all block sizes (1.., >= #leaves, automatic, TBFMM_BLOCK_SIZE) and both grouping modes produced the identical multiset of elementary interactions (equal to the model's), identical cell expansions and identical results; on the sequential executor, and (h_sched) on TbfOpenmpAlgorithm, TbfAlgorithmTsm and TbfOpenmpAlgorithmTsm under shim schedules, where the automatic / environment block size of both trees must also be >= 1.",
         "note": "Trusted: recorder kernel and model. Number of operator calls is deliberately not compared (batching is legitimate).",
-        "jobs": [{"bin": "h_fmm", "mode": "c08"}],
-        "rule": "case = one random input executed under every block size of {1,2,3,5,8,...,#leaves,#leaves+1,1e7, automatic, automatic via TBFMM_BLOCK_SIZE} (all sizes 1..N+1 when N<=12) x both grouping modes; the sorted multiset (op, level, target, source, code), every multipole/local (by cell) and every result (by original index) must be identical across groupings and equal to model / direct sum. non-trivial = >= 2 occupied leaves and at least one M2L or P2P; distinct = input signature.",
+        "jobs": [{"bin": "h_fmm", "mode": "c08"}, {"bin": "h_sched", "mode": "c08"}],
+        "rule": "h_sched: alternately a target/source input (sequential + OpenMP Tsm executors) and a single-tree input (OpenMP executor, reference = sequential executor) under explicit sizes (quick: 6 sampled incl. 1, #leaves, #leaves+1), automatic and TBFMM_BLOCK_SIZE x both modes. h_fmm: case = one random input executed under every block size of {1,2,3,5,8,...,#leaves,#leaves+1,1e7, automatic, automatic via TBFMM_BLOCK_SIZE} (all sizes 1..N+1 when N<=12) x both grouping modes; the sorted multiset (op, level, target, source, code), every multipole/local (by cell) and every result (by original index) must be identical across groupings and equal to model / direct sum. non-trivial = >= 2 occupied leaves and at least one M2L or P2P; distinct = input signature.",
         "require_events": ["groupings", "elementary-interactions"],
         "assumptions": [],
     },
     "C12": {
         "level": EXPL,
         "technique": "runtime monitoring of execute(flags) histories: recorder kernel (which operator, which level), byte snapshots of the tree between calls, bit-exact polynomial kernel",
-        "claim": "On every explored tree: each single flag called only its operator and wrote only its output kind; every ordered partition of the flags into stages respecting the dependency order (all 2^4 chain cuts x every placement of P2P, plus the documented 3-stage split) ended bit-identical to one full run; for every upper level 0..height no operator ran above it and the result equalled the model evaluated with that level.",
-        "note": "Trusted: recorder, snapshots by (level,coord) and by original index, model.",
-        "jobs": [{"bin": "h_fmm", "mode": "c12"}],
-        "rule": "cases cycle through three history families on random trees: single flags (6 runs), staged histories (quick 24 sampled incl. the documented split; thorough all %d), upper levels 0..height (height+1 runs with P-rec + P-set model). non-trivial = tree with >= 2 particles / far or near interactions / height >= 3 respectively; distinct = family + input signature.",
+        "claim": "On every explored tree: each single flag called only its operator and wrote only its output kind; every ordered partition of the flags into stages respecting the dependency order (all 2^4 chain cuts x every placement of P2P, plus the documented 3-stage split) ended bit-identical to one full run; for every upper level 0..height no operator ran above it and the result equalled the model evaluated with that level. The same two families (upper levels 0..height+1, staged histories) held on TbfOpenmpAlgorithm, TbfAlgorithmTsm and TbfOpenmpAlgorithmTsm (the OpenMP ones under shim schedules): events == model with that level, bit-identical to the sequential executor.",
+        "note": "Trusted: recorder, snapshots by (level,coord) and by original index, model. Specx/StarPU executors are covered for the default level only (C03/C09 thorough).",
+        "jobs": [{"bin": "h_fmm", "mode": "c12"}, {"bin": "h_sched", "mode": "c12"}],
+        "rule": "cases cycle through three history families on random trees: single flags (6 runs), staged histories (quick 24 sampled incl. the documented split; thorough all %d), upper levels 0..height (height+1 runs with P-rec + P-set model); h_sched adds four families: upper levels 0..height+1 on the OpenMP executor, on both target/source executors, staged histories on the OpenMP executor and on both target/source executors. non-trivial = tree with >= 2 particles / far or near interactions / height >= 3 respectively; distinct = family + input signature.",
         "require_events": ["single-flag-runs", "staged-histories", "upper-level-runs"],
         "assumptions": [],
     },
@@ -126,7 +126,7 @@ CHECKS = {
         "technique": "runtime monitoring of move/rebuild/execute histories: rebuilt tree compared with a tree freshly built from the edited array (leaf per index, group layout, data bits, preserved results, zeroed expansions), exact kernels for the following execution",
         "claim": "In every explored history the rebuilt tree equalled a fresh tree of the edited particles (same leaf per original index, same groups), kept every data value bit-for-bit and every result value, reset all expansions, satisfied the structural invariants, and the next execution added exactly one full interaction.",
         "note": "Order of particles inside a leaf is not compared (the sort is not stable).",
-        "jobs": [{"bin": "h_tree", "mode": "c13"}],
+        "jobs": [{"bin": "h_tree", "mode": "c13"}, {"bin": "h_fmm", "mode": "c13"}],
         "rule": "case = build, then 1..4 cycles of {write recognisable results and expansions, move a random subset in place (all / into one leaf / onto box faces and corners / onto cell faces), rebuild, compare with fresh tree, execute}; 10 tree flavours incl. data type != coordinate type and periodic ordering (h_tree, counting kernel) and P-poly trees Dim 1..4 (h_fmm: rhs == rhs_before + exact direct sum at the new positions). non-trivial = at least one particle moved and N >= 2; distinct = tree signature + cycles.",
         "require_events": ["rebuild-cycles", "particles-moved", "leaf-changes"],
         "assumptions": [],
@@ -210,7 +210,7 @@ CHECKS = {
         "note": "Trusted: address arithmetic of the harness. Over-aligned element types (alignas > 16) are not exercised.",
         "jobs": [{"bin": "h_mem", "mode": "c14"}],
         "rule": "cases = 8 layout families x random counts (0, 1, k*64/size, k*64/size+1, small, up to 2000/10^4) each followed by a random smaller count set; and random trees (Dim 1..3, periodic Dim 3) whose every cell/particle group is byte-copied, viewed, compared accessor by accessor, then executed through TbfAlgorithm on the views and compared byte for byte with the originals. non-trivial = any layout case / tree with >= 2 groups; distinct = case id or configuration signature.",
-        "require_events": ["elements-checked", "layouts-exercised", "groups-viewed", "bytes-compared", "viewer-bounds-hook-checks"],
+        "require_events": ["elements-checked", "layouts-exercised", "groups-viewed", "bytes-compared", "viewer-bounds-hook-checks", "leaf-accessor-sets-checked", "row-kernel-runs"],
         "assumptions": [],
     },
     "C20": {
